@@ -17,6 +17,9 @@ FACET = {
 }
 
 
+MAP_FACETS = ("_selectors", "_selected_by", "_list_size")
+
+
 def load_pinned():
     if not os.path.exists(PINNED):
         raise AnalysisError(f"pinned snapshot missing: {PINNED}")
@@ -60,6 +63,15 @@ def diff(pinned, current):
             pv, cv = pd.get(facet_key), cd.get(facet_key)
             if pv == cv:
                 continue
+            if facet_key in MAP_FACETS and isinstance(pv, list) and isinstance(cv, list):
+                # a table that is only ever looked up: the order of its entries is no part of the layout - except, for
+                # _selected_by, the order among entries with the SAME selector value (the decoder inverts the table, the later
+                # entry wins): compared as a stable sort by selector value (by member name for the other two)
+                pos = 1 if facet_key == "_selected_by" else 0
+                key_ = lambda kv: json.dumps(kv[pos], sort_keys=True)  # noqa: E731
+                pv, cv = sorted(pv, key=key_), sorted(cv, key=key_)
+                if pv == cv:
+                    continue
             facet = FACET.get(facet_key, "decode")
             if isinstance(pv, list) and isinstance(cv, list):
                 why = diff_lists(pv, cv)
